@@ -579,7 +579,13 @@ func (w *dnsWorld) newAnswer(up, name int, qtype uint16) *dnsAns {
 			}
 		}
 		if sp.special == 2 {
-			a.ips = append(a.ips, netip.IPv6Unspecified())
+			if w.mode == dnsModeC10 && (up+name+ver)%2 == 1 {
+				// the unspecified IPv4 address in its 4-in-6 spelling: the same kernel key as 0.0.0.0
+				a.ips = append(a.ips, netip.MustParseAddr("::ffff:0.0.0.0"))
+				w.s.Probe("dns.c10-mapped-unspecified-address")
+			} else {
+				a.ips = append(a.ips, netip.IPv6Unspecified())
+			}
 		}
 		if a.mix == 2 && len(a.ips) < 2 {
 			a.ips = append(a.ips, dnsSharedAAAA[(name+ver)%3])
